@@ -104,6 +104,7 @@ def generate(rng, tier, index):
         else:
             ops.append(gen_bad())
     ops.append(gen_pred())
+    core.sticky_bundles(rng, ops)
     return {"recipe": recipe, "ops": ops, "header": {"faulty": faulty}}
 
 
